@@ -1,10 +1,14 @@
 /-
   C12 — Incentive flows are fully funded and fully returned.
   Property theorems only (helpers in WW/Proofs/{Claim,Flows,Ledger,FlowSums,ClaimLedger,PosDelta,HistKeys,
-  FlowDelta,FlowBacked,Backed,Custody,CustodyHist,FlowExact}.lean). Model: `WW.Inc.step` (engine
+  FlowDelta,FlowBacked,Backed,Custody,CustodyHist,FlowExact,AssetKinds}.lean). Model: `WW.Inc.step` (engine
   `incentive`), following the repaired code (F4, F5, expand_flow TransferFrom dispatched, reset default).
+  Asset ids: 0 … 4 the LP asset, two native denoms, two cw20 tokens; 5 … 9 the same names in the WRONG KIND
+  (`a + 5` = look-alike of `a`). Every theorem below that speaks of "an asset `a`" holds for all ten (for
+  every `a : Nat`): in particular `flow_backed` keeps a cw20 token and the native denom that spells its
+  address apart — each balance covers the flows denominated in exactly that asset.
 -/
-import WW.Proofs.FlowExact
+import WW.Proofs.AssetKinds
 namespace WW.C12
 open WW WW.Gen WW.Inc
 
@@ -135,6 +139,57 @@ theorem open_expand_exact_open (c : Cfg) (e0 : Nat) (bal : Bal) (ops : List (Env
       ∧ balOf s' INC a = balOf (reach c (init e0 bal) ops) INC a + f.funded
       ∧ balOf s' COLLECTOR c.feeAsset = balOf (reach c (init e0 bal) ops) COLLECTOR c.feeAsset + c.feeAmt :=
   step_openFlow_exact (reach_FInv (c := c) (init_WInv e0 bal) (init_FInv e0 bal) ops) hs hsc hn h
+
+/-- **wrong kind, expansion**: `expand_flow` is accepted only when the asset it names is exactly the flow's
+    own asset — same kind AND same name (asset ids are `AssetInfo` values). So a flow in a cw20 token cannot
+    be expanded by naming (and paying in) the native denom that spells the token's address, nor the other
+    way round; together with `open_expand_exact_expand` an accepted expansion brings in exactly `amt` of the
+    flow's own asset. Any state, any sender, any funds. -/
+theorem expand_names_flow_asset {c : Cfg} {s s' : St} {e : Env} {id a amt : Nat} {en : Option Nat} {f : Flow}
+    (hf : findFlow s.flows id = some f) (h : step c s e (.expandFlow id a amt en) = .ok s') : f.asset = a :=
+  step_expandFlow_names_asset hf h
+
+/-- the look-alike form of it: a flow in one of the five assets `x` is never expanded by a message naming
+    `x + 5`, and a flow in a look-alike `x + 5` never by a message naming `x` -/
+theorem expand_lookalike_refused {c : Cfg} {s s' : St} {e : Env} {id x amt : Nat} {en : Option Nat} {f : Flow}
+    (hf : findFlow s.flows id = some f) :
+    (f.asset = x → step c s e (.expandFlow id (x + 5) amt en) ≠ .ok s')
+    ∧ (f.asset = x + 5 → step c s e (.expandFlow id x amt en) ≠ .ok s') := by
+  refine ⟨fun hx h => ?_, fun hx h => ?_⟩
+  · have := step_expandFlow_names_asset hf h; omega
+  · have := step_expandFlow_names_asset hf h; omega
+
+/-- **wrong kind, kinds**: the look-alike `a + 5` of each of the five assets has the other kind; it is a
+    token without a contract exactly when `a` is native -/
+theorem lookalike_kind (c : Cfg) {a : Nat} (h : a < 5) :
+    c.native (a + 5) = !c.native a ∧ c.dead (a + 5) = c.native a ∧ c.dead a = false :=
+  ⟨native_lookalike c h, dead_lookalike c h, base_not_dead c h⟩
+
+/-- **wrong kind, token that does not exist**: `open_flow` and `expand_flow` naming the cw20 `Token` that
+    spells a native denom are refused in every state, whatever is attached (the coins of the denom itself
+    included) — a refused operation changes nothing (`stepOrStay`). -/
+theorem dead_token_flow_refused {c : Cfg} {s s' : St} {e : Env} {a amt : Nat} (hd : c.dead a = true) :
+    (∀ st en, step c s e (.openFlow a amt st en) ≠ .ok s')
+    ∧ (∀ id en, step c s e (.expandFlow id a amt en) ≠ .ok s') :=
+  ⟨fun _ _ h => step_openFlow_dead hd h, fun _ _ h => step_expandFlow_dead hd h⟩
+
+/-- non-vacuity of the look-alike clauses: cw20 A (asset 3) and the native denom spelling its address
+    (asset 8). Dave opens a flow of 5000 in the token; expanding it with 700 look-alike COINS is refused
+    (nothing moves); he opens a flow of 6000 in the look-alike denom (accepted: it is just another denom),
+    expanding THAT with the token's allowance is refused, with the coins accepted. The contract then holds
+    5000 of the token and 6700 of the denom — each flow backed in its own asset — and `uwhale` named as a
+    token is refused although the coins are attached. -/
+example :
+    let c : Cfg := { lpNative := false, feeAsset := 1, feeAmt := 10, maxFlows := 3, buffer := 5, minDur := 86400, maxDur := 31556926 }
+    let s0 := init 1 [((4, 1), 100), ((4, 2), 9000), ((4, 3), 9000), ((4, 8), 9000)]
+    let s := reach c s0 [({ epoch := 1, time := 100, sender := 4, offers := [(1, 10), (3, 5000)] }, .openFlow 3 5000 none (some 10)),
+                         ({ epoch := 1, time := 101, sender := 4, offers := [(8, 700)] }, .expandFlow 1 8 700 none),
+                         ({ epoch := 1, time := 102, sender := 4, offers := [(1, 10), (8, 6000)] }, .openFlow 8 6000 none (some 10)),
+                         ({ epoch := 1, time := 103, sender := 4, offers := [(3, 700)] }, .expandFlow 2 3 700 none),
+                         ({ epoch := 1, time := 104, sender := 4, offers := [(8, 700)] }, .expandFlow 2 8 700 none),
+                         ({ epoch := 1, time := 105, sender := 4, offers := [(1, 10), (2, 5000)] }, .openFlow 7 5000 none (some 10))]
+    (balOf s INC 3, balOf s INC 8, balOf s 4 3, balOf s 4 8, balOf s 4 2) = (5000, 6700, 4000, 2300, 9000)
+    ∧ s.flows.map (fun f => f.asset) = [3, 8] ∧ s.flows.map (fun f => f.funded) = [5000, 6700] := by decide
 
 /-- non-vacuity: dave opens a native flow of 1 000 000 `ureward` (fee 1000 `uwhale`), expands it by
     500 000, the owner closes it: dave gets 1 500 000 back, the collector keeps the fee, the contract 0 -/
